@@ -548,6 +548,13 @@ func (it *Interp) boundsIndex(i *sym.Term, ityp types.Type, n int, allowSym bool
 		}
 		return int(v), nil
 	}
+	if i.W < 64 {
+		if signed {
+			i = S.SExt(i, 64)
+		} else {
+			i = S.ZExt(i, 64)
+		}
+	}
 	inb := S.Cmp(sym.OpULt, i, S.Const(i.W, uint64(n)))
 	if n == 0 {
 		inb = S.False
